@@ -56,6 +56,15 @@ SPECS = [
              "i18n_at('h1', 'target_language') is val(1)",
              "i18n_now('target_language') is i18n0('target_language')",
          ], raises={'*': {'ensures': ["raised('h1') or raised('e1')"]}}, serves=['C10']),
+    dict(id='S-Content-translate',
+         # an inserted value that is translated first is still escaped like every inserted value
+         text='A<p tal:content="e7" i18n:translate="">x</p>B',
+         ensures=[
+             "evals(7) == 1",
+             "val(7) is not DEFAULT() or (S() == S0() + 'A<p>x</p>B' and translate_calls() == 0)",
+             "val(7) is DEFAULT() or (translate_calls() == 1 and translate_arg(0, 'msgid') is val(7))",
+             "val(7) is DEFAULT() or S() == S0() + 'A<p>' + ('' if quoted(translate_result(0), None, '\\xad', None, None) is None else piece(quoted(translate_result(0), None, '\\xad', None, None))) + '</p>B'",
+         ], raises={'*': {'ensures': ["raised('e7')"]}}, serves=['C10', 'C02']),
     dict(id='S-I18nAttributes',
          # "The same contract holds for attributes named in i18n:attributes": translated once, with the
          # explicit id, the static text as default, and the domain / context / TARGET LANGUAGE of the
